@@ -195,6 +195,7 @@ def resolve(doc, ref=None):
         with open(REF) as f:
             ref = json.load(f)
     notes = []
+    _flatten_field_groups(doc, ref, notes)
     adt_map, meth_map, field_map = {}, {}, {}      # current -> reference
     for _round in range(3):
         cur = profile(doc)
@@ -259,6 +260,25 @@ def resolve(doc, ref=None):
         meth_map, field_map = {}, {}
     # --- parameter lists: a private method whose parameters were re-ordered, or whose unused `self` receiver was dropped, gets the
     # reference order back (locals of its body and arguments of every call site are permuted; a dropped receiver becomes a dummy) ---
+    # --- parameter objects: a private method that now receives a small crate-local struct (unknown to the reference) where the reference
+    # passes the values one by one gets the struct parameter replaced by the fields it reads (scalar replacement; every call site passes
+    # the matching fields of the struct it handed over) ---
+    cur = profile(doc)
+    for owner, rms in ref['methods'].items():
+        for name, r in rms.items():
+            c = cur['methods'].get(owner, {}).get(name)
+            if not c or not r.get('params') or c['params'] == r['params'] or doc['bodies'][c['path']].get('vis') == 'pub':
+                continue
+            ref_tys = set(t for (_, t) in r['params'])
+            for i in range(len(c['params']) - 1, -1, -1):
+                ct = c['params'][i][1]
+                base = ct[1:].strip() if ct.startswith('&') else ct
+                base = base.split('<')[0]
+                if ct in ref_tys or base not in doc['adts'] or base in ref.get('adts', {}) or doc['adts'][base].get('kind') != 'struct':
+                    continue
+                if _explode_param(doc, c['path'], i, base, ct.startswith('&')):
+                    notes.append({'kind': 'parameter object', 'owner': owner, 'reference': name + '(' + ', '.join(str(p_[0]) for p_ in r['params']) + ')',
+                                  'current': name + '(.., ' + str(c['params'][i][0]) + ': ' + ct.split('::')[-1] + ', ..)', 'similarity': 1.0})
     cur = profile(doc)
     for owner, rms in ref['methods'].items():
         for name, r in rms.items():
@@ -272,6 +292,215 @@ def resolve(doc, ref=None):
             notes.append({'kind': 'parameters', 'owner': owner, 'reference': name + '(' + ', '.join(str(p[0]) for p in r['params']) + ')',
                           'current': name + '(' + ', '.join(str(p[0]) for p in c['params']) + ')', 'similarity': 1.0})
     return doc, notes
+
+
+def _aggrs(x, out):
+    if isinstance(x, dict):
+        if x.get('k') == 'aggr' and x.get('adt'):
+            out.append(x)
+        for k, v in x.items():
+            if k != 'promoted':
+                _aggrs(v, out)
+    elif isinstance(x, list):
+        for v in x:
+            _aggrs(v, out)
+
+
+def _flatten_group(doc, S, g, G):
+    """the field `g` of struct S is a small private struct G that the reference does not know (two or more former fields of S grouped):
+    S gets G's fields back in place of g — S.g.x becomes S.x in every place, an aggregate of S takes the fields of the G value it was
+    given. Nothing is touched unless every use has that shape (a use of S.g as a whole, e.g. a method call on it, keeps the grouping)."""
+    adts = doc['adts']
+    sf = adts[S]['variants'][0]['fields']
+    gf = adts[G]['variants'][0]['fields']
+    fi = [f[0] for f in sf].index(g)
+    pls, ags = [], []
+    for b in doc['bodies'].values():
+        _places(b['blocks'], pls)
+        _places(b.get('debug', []), pls)
+        _aggrs(b['blocks'], ags)
+    for pl in pls:
+        p = pl['p']
+        for j, e in enumerate(p):
+            if isinstance(e, dict) and e.get('adt') == S and e.get('name') == g:
+                if j + 1 >= len(p) or not (isinstance(p[j + 1], dict) and p[j + 1].get('adt') == G and 'f' in p[j + 1]):
+                    return False
+    owner_of = {}
+    for b in doc['bodies'].values():
+        for blk in b['blocks']:
+            for st in blk['stmts']:
+                if st.get('k') == 'assign' and st['rv'].get('k') == 'aggr' and st['rv'].get('adt') == S:
+                    owner_of[id(st['rv'])] = b
+    for a in ags:
+        if a.get('adt') != S:
+            continue
+        if g not in (a.get('fields') or []) or id(a) not in owner_of:
+            return False
+        o = a['ops'][a['fields'].index(g)]
+        if not (isinstance(o, dict) and 'place' in o and not o['place']['p']):
+            return False
+        if (owner_of[id(a)]['locals'][o['place']['l']].get('ty') or '').split('<')[0] != G:
+            return False
+    # ---- apply ----
+    new_sf = sf[:fi] + [list(x) for x in gf] + sf[fi + 1:]
+    idx = {f[0]: i for i, f in enumerate(new_sf)}
+    for pl in pls:
+        p, q, j = pl['p'], [], 0
+        while j < len(p):
+            e = p[j]
+            if isinstance(e, dict) and e.get('adt') == S and e.get('name') == g:
+                n = p[j + 1]
+                q.append({'f': idx[n['name']], 'name': n['name'], 'adt': S, 'ty': n.get('ty')})
+                j += 2
+                continue
+            if isinstance(e, dict) and e.get('adt') == S and e.get('name') in idx:
+                e['f'] = idx[e['name']]
+            q.append(e)
+            j += 1
+        pl['p'] = q
+    for a in ags:
+        if a.get('adt') != S:
+            continue
+        k = a['fields'].index(g)
+        tmp = a['ops'][k]['place']['l']
+        a['ops'] = a['ops'][:k] + [{'c': 'copy', 'place': {'l': tmp, 'p': [{'f': i, 'name': x[0], 'adt': G, 'ty': x[1]}]}} for i, x in enumerate(gf)] + a['ops'][k + 1:]
+        a['fields'] = a['fields'][:k] + [x[0] for x in gf] + a['fields'][k + 1:]
+    adts[S]['variants'][0]['fields'] = new_sf
+    return True
+
+
+def _flatten_field_groups(doc, ref, notes):
+    adts = doc['adts']
+    for S, rfs in ref['fields'].items():
+        if S not in adts or adts[S].get('kind') != 'struct' or not adts[S].get('variants'):
+            continue
+        for _ in range(4):
+            sf = adts[S]['variants'][0]['fields']
+            names = [f[0] for f in sf]
+            missing = [m for m in rfs if m not in names]
+            if not missing:
+                break
+            done = False
+            for f in sf:
+                g, gty = f[0], f[1]
+                G = gty.split('<')[0]
+                if g in rfs or gty.startswith(('&', '*', '(', '[')) or G not in adts or G in ref.get('adts', {}) or adts[G].get('kind') != 'struct' or not adts[G].get('variants'):
+                    continue
+                gf = adts[G]['variants'][0]['fields']
+                if not gf or len(gf) > 6 or any(x[0] in names for x in gf):
+                    continue
+                if _flatten_group(doc, S, g, G):
+                    notes.append({'kind': 'field group', 'owner': S, 'reference': ', '.join(missing), 'current': '%s: %s { %s }' % (g, G.split('::')[-1], ', '.join(x[0] for x in gf)), 'similarity': 1.0})
+                    done = True
+                    break
+            if not done:
+                break
+
+
+def _places(x, out):
+    if isinstance(x, dict):
+        if 'l' in x and 'p' in x and isinstance(x['p'], list):
+            out.append(x)
+            return
+        for k, v in x.items():
+            if k != 'promoted':
+                _places(v, out)
+    elif isinstance(x, list):
+        for v in x:
+            _places(v, out)
+
+
+def _explode_param(doc, path, i, S, byref):
+    """replace parameter #i (0-based) of the private function `path`, a struct S (by value or by shared reference) that the body only
+    reads field by field, by one parameter per field read; at every call site the argument becomes the same fields of the struct that
+    was passed. Two phases: nothing is touched unless every use and every call site has the expected shape. Returns True if applied."""
+    b = doc['bodies'][path]
+    L = i + 1
+    n_old = b['arg_count']
+    sfields = doc['adts'][S]['variants'][0]['fields'] if doc['adts'][S].get('variants') else None
+    if sfields is None:
+        return False
+    k = 1 if byref else 0
+    pls = []
+    _places(b['blocks'], pls)
+    used = set()
+    for pl in pls:
+        if any(isinstance(e, dict) and e.get('idx') == L for e in pl['p']):
+            return False
+        if pl['l'] != L:
+            continue
+        if len(pl['p']) <= k or (byref and pl['p'][0] != 'deref') or not (isinstance(pl['p'][k], dict) and 'f' in pl['p'][k] and pl['p'][k].get('adt') == S):
+            return False
+        used.add(pl['p'][k]['f'])
+    FS = sorted(used)
+    # call sites
+    sites = []
+    for ob in doc['bodies'].values():
+        for blk in ob['blocks']:
+            t = blk['term']
+            if t and t.get('k') == 'call' and (t.get('callee') == path or t.get('resolved') == path):
+                if len(t.get('args', [])) != n_old:
+                    return False
+                a = t['args'][i]
+                if not (isinstance(a, dict) and 'place' in a and not a['place']['p']):
+                    return False
+                A = a['place']['l']
+                for _ in range(4):
+                    defs = [st for bl2 in ob['blocks'] for st in bl2['stmts'] if st['k'] == 'assign' and st['place']['l'] == A and not st['place']['p']]
+                    ty = (ob['locals'][A].get('ty') or '')
+                    if not ty.startswith('&') and ty.split('<')[0] == S:
+                        break
+                    if len(defs) != 1:
+                        return False
+                    rv = defs[0]['rv']
+                    if rv.get('k') == 'ref' and not rv['place']['p']:
+                        A = rv['place']['l']
+                    elif rv.get('k') == 'use' and isinstance(rv.get('op'), dict) and 'place' in rv['op'] and not rv['op']['place']['p']:
+                        A = rv['op']['place']['l']
+                    else:
+                        return False
+                ty = (ob['locals'][A].get('ty') or '')
+                if ty.startswith('&') or ty.split('<')[0] != S:
+                    return False
+                sites.append((t, A))
+    if not sites:
+        return False
+    # ---- apply ----
+    shift = len(FS) - 1
+    newl = lambda l: l if l < L else l + shift
+    fld_local = {f: L + j for j, f in enumerate(FS)}
+    for pl in pls:
+        if pl['l'] == L:
+            f = pl['p'][k]['f']
+            pl['p'] = pl['p'][k + 1:]
+            pl['l'] = fld_local[f]
+        else:
+            pl['l'] = newl(pl['l'])
+        for e in pl['p']:
+            if isinstance(e, dict) and isinstance(e.get('idx'), int):
+                e['idx'] = newl(e['idx'])
+    dbg = []
+    for d in b.get('debug', []):
+        v = d.get('v')
+        if isinstance(v, dict) and 'l' in v:
+            if v['l'] == L:
+                continue
+            v['l'] = newl(v['l'])
+            for e in v.get('p', []):
+                if isinstance(e, dict) and isinstance(e.get('idx'), int):
+                    e['idx'] = newl(e['idx'])
+        dbg.append(d)
+    for f in FS:
+        dbg.append({'name': sfields[f][0], 'v': {'l': fld_local[f], 'p': []}})
+    b['debug'] = dbg
+    b['locals'] = b['locals'][:L] + [{'ty': sfields[f][1], 'adt': None} for f in FS] + b['locals'][L + 1:]
+    b['arg_count'] = n_old + shift
+    for (t, A) in sites:
+        mk = lambda f: {'c': 'copy', 'place': {'l': A, 'p': [{'f': f, 'name': sfields[f][0], 'adt': S, 'ty': sfields[f][1]}]}}
+        t['args'] = t['args'][:i] + [mk(f) for f in FS] + t['args'][i + 1:]
+        if t.get('arg_tys'):
+            t['arg_tys'] = t['arg_tys'][:i] + [sfields[f][1] for f in FS] + t['arg_tys'][i + 1:]
+    return True
 
 
 def _param_plan(rp, cp):
